@@ -30,11 +30,21 @@ pub const TYPE_ARGS: &[&[u8]] = &[&[], &[0], &[1], &[1, 2], &[1, 2, 3], &[7], &[
 
 pub const DATA_STEMS: &[&[u8]] = &[&[0xAA, 0xBB, 0xCC], &[0xAA, 0xBB], &[0xAA], &[0x00, 0x00], &[0xDE, 0xAD, 0xBE, 0xEF]];
 
+/// Extra values of the `boundary` workload flavour (histories added for the rich-indexer part):
+/// args / data made of 0xff bytes and extensions of them — a prefix search for 0xff..ff has no
+/// same-length exclusive upper bound in a `>= prefix AND < upper` range query.
+pub const FF_LOCK_ARGS: &[&[u8]] = &[&[255, 255], &[255, 255, 1], &[255, 255, 255, 0]];
+pub const FF_TYPE_ARGS: &[&[u8]] = &[&[255], &[255, 255], &[255, 255, 9]];
+pub const FF_DATA_STEMS: &[&[u8]] = &[&[0xFF], &[0xFF, 0xFF], &[0xFF, 0xFF, 0xFF]];
+
 pub struct Workload {
     /// every transaction this workload built, by hash
     pub mine: HashMap<H, TransactionView>,
     pub order: Vec<H>,
     salt: u64,
+    lock_args: Vec<&'static [u8]>,
+    type_args: Vec<&'static [u8]>,
+    data_stems: Vec<&'static [u8]>,
 }
 
 fn is_always_success(gi: &vnode::consensus::GenesisInfo, s: &packed::Script) -> bool {
@@ -72,14 +82,23 @@ pub fn pending_on_path(tg: &TreeGen, parent: &H) -> Vec<TransactionView> {
 
 impl Workload {
     pub fn new(seed: u64) -> Workload {
-        Workload { mine: HashMap::new(), order: vec![], salt: seed << 20 }
+        Workload { mine: HashMap::new(), order: vec![], salt: seed << 20, lock_args: LOCK_ARGS.to_vec(), type_args: TYPE_ARGS.to_vec(), data_stems: DATA_STEMS.to_vec() }
+    }
+
+    /// The standard tables plus the 0xff boundary values.
+    pub fn new_boundary(seed: u64) -> Workload {
+        let mut w = Workload::new(seed);
+        w.lock_args.extend_from_slice(FF_LOCK_ARGS);
+        w.type_args.extend_from_slice(FF_TYPE_ARGS);
+        w.data_stems.extend_from_slice(FF_DATA_STEMS);
+        w
     }
 
     fn gen_data(&mut self, rng: &mut Rng, first: bool) -> Vec<u8> {
         let mut d: Vec<u8> = match rng.below(10) {
             0..=2 => vec![],
             3..=6 => {
-                let mut v = DATA_STEMS[rng.usize_below(DATA_STEMS.len())].to_vec();
+                let mut v = self.data_stems[rng.usize_below(self.data_stems.len())].to_vec();
                 let n = rng.usize_below(12);
                 v.extend(rng.bytes(n));
                 // a marker somewhere inside (partial data search)
@@ -186,8 +205,8 @@ impl Workload {
             let n_out = 1 + rng.usize_below(4);
             let mut specs: Vec<OutSpec> = vec![];
             for i in 0..n_out {
-                let lock = builder::lock_with_args(gi, LOCK_ARGS[rng.usize_below(LOCK_ARGS.len())]);
-                let type_ = if rng.chance(450, 1000) { Some(builder::lock_with_args(gi, TYPE_ARGS[rng.usize_below(TYPE_ARGS.len())])) } else { None };
+                let lock = builder::lock_with_args(gi, self.lock_args[rng.usize_below(self.lock_args.len())]);
+                let type_ = if rng.chance(450, 1000) { Some(builder::lock_with_args(gi, self.type_args[rng.usize_below(self.type_args.len())])) } else { None };
                 let data = self.gen_data(rng, i == 0);
                 specs.push(OutSpec { capacity: 0, lock, type_, data });
             }
